@@ -117,6 +117,12 @@ def schedule_task(cls_name, ctype, kind, cprime, order, m, contraction, tier):
         for i in range(m):
             for j in range(m):
                 cov[0, i, j] = (Sym(sym.rv(1)) if bandit else var.view(np.ndarray)[i]) if i == j else Sym(sym.rv(0))
+        if not bandit and kind == "rect":
+            # a GP posterior couples the objectives: symbolic covariance between the first two (positive definite); the
+            # rectangle's half-widths must still be scale × the *marginal* standard deviations
+            c01 = ctx.real("cov01")
+            ctx.assume(c01 * c01 < var.view(np.ndarray)[0] * var.view(np.ndarray)[1])
+            cov[0, 0, 1] = cov[0, 1, 0] = c01
         model = A.StubGP(m, table=lambda X: (mu, cov.view(SymArray)))
         with patched((mod, {"np": px}), (ds, {"np": px}), (cr, {"np": px})):
             if cls_name == "PaVeBa":
@@ -242,6 +248,8 @@ def replay(case):
         mu = np.arange(1, m + 1, dtype=float)[None, :]
         var = np.array([0.25 * (k + 1) for k in range(m)])
         cov = np.diag(var)[None, :, :]
+        if cls_name not in ("PaVeBa", "Auer") and m >= 2:
+            cov[0, 0, 1] = cov[0, 1, 0] = 0.9 * np.sqrt(var[0] * var[1])   # correlated posterior
         d.update(A.StubGP(m, table=lambda X: (mu, cov)), np.array(2.0), [0])
         r = d.confidence_regions[0]
         if hasattr(r, "lower"):
